@@ -25,7 +25,7 @@ class ParserCommentProcessor(MarkdownRenderer):
         return ""
 
     def param(self, token: dict[str, Any], state: BlockState):
-        name = token['attrs']['name']
+        name = token.get('attrs', {}).get('name')
         description = self.render_children(token, state)
         if (isinstance(self.decl, Interface.Method) or isinstance(self.decl, ErrorDomain.ErrorCode)) and description:
             for param in self.decl.parameters:
